@@ -2,28 +2,32 @@
 (* Trace validation of the real health checker (CreateHealthCheck with a scripted session factory, real
    timers) against HealthChecker.  Events (driver):
      new{ut,ht,init}                          fresh checker on a host whose flag word is init (TraceReset)
-     check{n,k,r,changed,cbok,flags,health}   n-th callback: k = CheckHealth calls made so far, r = scripted result
-                                              of check n, callback arguments, HealthFlag()/Health() inside the callback *)
+     check{n,k,r,changed,cbok,flags,health}   first callback after check k started (k = CheckHealth calls made so far),
+                                              n = callback ordinal, r = what check k did (scripted), callback
+                                              arguments, HealthFlag()/Health() inside the callback
+     extra{n,k,changed,cbok,flags,health}     another callback although no new check started: a second result
+     deliver{j,pos,ok}                        the late answer of check j is let out now (position pos, see HealthChecker)
+     silent{k}                                check k is over (answered / timed out, checker idle) without any callback *)
 EXTENDS HealthChecker, VTrace
 
 tvars == <<vars, l>>
 S(seq) == { seq[i] : i \in DOMAIN seq }
 
 TraceInit == /\ l = 1 /\ ut = 0 /\ ht = 0 /\ w0 = {} /\ word = {} /\ pword = {} /\ okCnt = 0 /\ failCnt = 0
-             /\ hist = <<>> /\ changed = FALSE /\ cbok = FALSE
+             /\ hist = <<>> /\ script = <<>> /\ changed = FALSE /\ cbok = FALSE
 
 TNew == /\ IsEvent("new")
         /\ ut' = Ev.ut /\ ht' = Ev.ht /\ w0' = S(Ev.init) /\ word' = S(Ev.init) /\ pword' = S(Ev.init)
-        /\ okCnt' = 0 /\ failCnt' = 0 /\ hist' = <<>> /\ changed' = FALSE /\ cbok' = FALSE
+        /\ okCnt' = 0 /\ failCnt' = 0 /\ hist' = <<>> /\ script' = <<>> /\ changed' = FALSE /\ cbok' = FALSE
 
 TCheck == /\ IsEvent("check")
-          /\ Check(Ev.r)
+          /\ LET cs == Counts(Ev.r)     \* both outcomes allowed: the observed one decides
+             IN Check(Ev.r, IF Cardinality(cs) = 1 THEN CHOOSE c \in cs : TRUE ELSE IF Ev.cbok THEN "ok" ELSE "timeout")
           /\ LET obs == S(Ev.flags)
                  was == "A" \in word
                  exp == "A" \in word'
                  got == "A" \in obs
-             IN /\ Expect(Ev.k = Ev.n, "callback-without-its-own-check")
-                /\ Expect(Ev.cbok = cbok', "result-miscounted")
+             IN /\ Expect(Ev.cbok = cbok', "result-miscounted")
                 /\ Expect(~(~was /\ exp /\ ~got), "not-marked-unhealthy-at-threshold")
                 /\ Expect(~(~was /\ ~exp /\ got), "marked-unhealthy-before-threshold")
                 /\ Expect(~(was /\ ~exp /\ got), "not-marked-healthy-at-threshold")
@@ -32,6 +36,17 @@ TCheck == /\ IsEvent("check")
                 /\ Expect(obs \ {"A"} = word' \ {"A"}, "foreign-condition-touched")
                 /\ Expect(Ev.health = Healthy(obs), "health-not-iff-no-flag")
 
-TraceNext == TNew \/ TCheck
+(* one check, one result: a further callback without a new check is a second result of the same check *)
+TExtra == /\ IsEvent("extra")
+          /\ Expect(FALSE, "second-result-for-one-check")
+          /\ word' = S(Ev.flags) /\ pword' = word
+          /\ UNCHANGED <<ut, ht, w0, okCnt, failCnt, hist, script, changed, cbok>>
+TSilent == /\ IsEvent("silent")
+           /\ Expect(FALSE, "check-without-result")
+           /\ UNCHANGED vars
+
+TDeliver == IsEvent("deliver") /\ UNCHANGED vars     \* driver note: late answer of check j let out at position pos
+
+TraceNext == TNew \/ TCheck \/ TExtra \/ TSilent \/ TDeliver
 TraceSpec == TraceInit /\ [][TraceNext]_tvars
 ====
